@@ -42,7 +42,9 @@ LINES = {
     # (schema 0 again, other lines) the same type name from two packages, an implementer in only one of them
     5: ["%import zcvpkg_x", "%import zcvpkg_y", "<dupt n1/>", "<dupt/>", "%import zcvpkg_a", "<pa1 n2/>"],
     1: ["%import zcvpkg_a", "%import zcvpkg_c", "%import zcvmod_plain", "%import zcvpkg_missing", "<pa1 n1/>",
-        "<pc1 n2/>", "<pa1 fixed/>", "<t2 n3/>", "<pa2/>", "%import zcvpkg_a."],
+        "<pc1 n2/>", "<pa1 fixed/>", "<t2 n3/>", "<pa2/>", "%import zcvpkg_a.",
+        # the name of the fixed-name abstract slot on a type that merely extends an implementer / implements another type
+        "<pa2 fixed/>", "<pc1 fixed/>"],
     2: ["%import zcvpkg_a", "%import zcvpkg_b", "<box>", "</box>", "<pa1 n1/>", "<pb1/>", "<pa1/>", "%import zcvpkg_c"],
     3: ["%import zcvpkg_a", "%import zcvpkg_b", "<pa1 n1/>", "<pb1 n2/>", "<pa2/>", "<t1/>", "%import zcvpkg_nocomp"],
     4: ["%import zcvpkg_d", "<pd1 n1/>", "<wbase n2/>", "<wbase n3>", "</wbase>", "Gamma gv", "<pd1>", "</pd1>", "own v1"],
